@@ -579,11 +579,16 @@ Next == PushLeaf \/ ApplyUnary \/ ApplyBinary \/ ApplyTop \/ Finish
 (***************************************************************************)
 (* Invariants                                                              *)
 (***************************************************************************)
-\* C13 on the model: the three routes mean the same type, outside the named deviations
-AnnotationRoutesAgree == (stage = "done" /\ Valid(case)) => (RoutesAgree(case) \/ KnownDeviation(case))
+\* C13 on the model: the routes mean the same type, outside the named deviations.  An expression CPython
+\* cannot evaluate (e.g. int | "A") is still a legal annotation in a PEP 563 module, where only the string
+\* route and the checker's visitor see it.
+RoutesAgreeWhereDefined(e) ==
+    IF Valid(e) THEN RoutesAgree(e) ELSE RefSame(ImplStringRoute(e), ImplAstRoute(e))
+AnnotationRoutesAgree == stage = "done" => (RoutesAgreeWhereDefined(case) \/ KnownDeviation(case))
 \* the strict property is violated (sensitivity / documentation of the findings)
-AnnotationRoutesAgreeStrict == (stage = "done" /\ Valid(case)) => RoutesAgree(case)
+AnnotationRoutesAgreeStrict == stage = "done" => RoutesAgreeWhereDefined(case)
 \* no route raises outside deviation (a)
-NoRouteRaises == (stage = "done" /\ Valid(case) /\ ~Dev_StarInSubscript(case)) =>
-    /\ ImplRuntimeRoute(case).t # "Raised" /\ ImplStringRoute(case).t # "Raised" /\ ImplAstRoute(case).t # "Raised"
+NoRouteRaises == (stage = "done" /\ ~Dev_StarInSubscript(case)) =>
+    /\ (Valid(case) => ImplRuntimeRoute(case).t # "Raised")
+    /\ ImplStringRoute(case).t # "Raised" /\ ImplAstRoute(case).t # "Raised"
 =============================================================================
